@@ -57,16 +57,12 @@ class SDict(dict):
             if _same_key(kk, k):
                 return ('s', i)
         for kk in dict.keys(self):
-            if _isinstance(kk, (int, str, bytes)) and not _isinstance(kk, bool) or kk is True or kk is False:
-                r = (kk == k)
-                if _isinstance(r, SBool):
-                    r = bool(r)
-                if r is True:
-                    return ('c', kk)
+            if _same_key(kk, k):
+                return ('c', kk)
         return None
 
     def __getitem__(self, k):
-        if not _isinstance(k, Sym):
+        if not _symkey(k):
             if not self._sk:
                 try:
                     return dict.__getitem__(self, k)
@@ -95,7 +91,7 @@ class SDict(dict):
         return v
 
     def __setitem__(self, k, v):
-        if not _isinstance(k, Sym):
+        if not _symkey(k):
             if self._sk:
                 f = self._find_conc(k)
                 if f is not None and f[0] == 's':
@@ -112,7 +108,7 @@ class SDict(dict):
             dict.__setitem__(self, f[1], v)
 
     def __delitem__(self, k):
-        f = self._find(k) if _isinstance(k, Sym) else self._find_conc(k)
+        f = self._find(k) if _symkey(k) else self._find_conc(k)
         if f is None:
             raise KeyError(k)
         if f[0] == 's':
@@ -121,25 +117,25 @@ class SDict(dict):
             dict.__delitem__(self, f[1])
 
     def __contains__(self, k):
-        if not _isinstance(k, Sym) and not self._sk:
+        if not _symkey(k) and not self._sk:
             return dict.__contains__(self, k)
-        return (self._find(k) if _isinstance(k, Sym) else self._find_conc(k)) is not None
+        return (self._find(k) if _symkey(k) else self._find_conc(k)) is not None
 
     def get(self, k, d=None):
-        f = self._find(k) if _isinstance(k, Sym) else self._find_conc(k)
+        f = self._find(k) if _symkey(k) else self._find_conc(k)
         if f is None:
             return d
         return self._sv[f[1]] if f[0] == 's' else dict.__getitem__(self, f[1])
 
     def setdefault(self, k, d=None):
-        f = self._find(k) if _isinstance(k, Sym) else self._find_conc(k)
+        f = self._find(k) if _symkey(k) else self._find_conc(k)
         if f is None:
             self[k] = d
             return d
         return self._sv[f[1]] if f[0] == 's' else dict.__getitem__(self, f[1])
 
     def pop(self, k, *d):
-        f = self._find(k) if _isinstance(k, Sym) else self._find_conc(k)
+        f = self._find(k) if _symkey(k) else self._find_conc(k)
         if f is None:
             if d:
                 return d[0]
@@ -191,6 +187,20 @@ def _same_key(a, b):
     if _isinstance(a, CStr) or _isinstance(b, CStr):
         if not _isinstance(a, (CStr, str, bytes)) or not _isinstance(b, (CStr, str, bytes)):
             return False
+        if _len(a) != _len(b):
+            return False
+    ta, tb = _type(a) is tuple, _type(b) is tuple
+    if ta != tb:
+        return False
+    if ta:
+        if _len(a) != _len(b):
+            return False
+        for x, y in zip(a, b):
+            if not _same_key(x, y):
+                return False
+        return True
+    if not _isinstance(a, Sym) and not _isinstance(b, Sym):
+        return _type(a) is _type(b) and a == b if _isinstance(a, (str, bytes)) or _isinstance(b, (str, bytes)) else a == b
     r = (a == b)
     if _isinstance(r, SBool):
         return bool(r)
@@ -199,6 +209,24 @@ def _same_key(a, b):
 
 def sx_dict(*a, **k):
     return SDict(*a, **k)
+
+
+def sx_defaultdict(factory=None, *a, **k):
+    d = SDict(*a, **k)
+    if factory is dict:
+        factory = SDict
+    d._factory = factory
+    return d
+
+
+def _symkey(k):
+    if _isinstance(k, Sym):
+        return True
+    if _type(k) is tuple:
+        for x in k:
+            if _isinstance(x, Sym) or (_type(x) is tuple and _symkey(x)):
+                return True
+    return False
 
 
 # ------------------------------------------------------------------ proxy detection
